@@ -22,7 +22,73 @@ PRIM = (type(None), bool, int, float, str)
 
 
 def units(tier):
-    return E.ranges(SETS[tier], STEP)
+    return E.ranges(SETS[tier], STEP) + [("bare-containers", 0, 1)]
+
+
+def run_bare(res):
+    """unsubscripted (and partly subscripted) container targets: list, dict, tuple, set, dict[str, list], a dataclass with a bare `list` field"""
+    import dataclasses
+    import typing
+
+    import typelib
+
+    from ..kernel import cold
+
+    @dataclasses.dataclass
+    class Bag:
+        items: list
+        index: dict = dataclasses.field(default_factory=dict)
+
+    # (name, type, value, typed depth): members of an unsubscripted container are untyped (Any) and pass through by identity (C15);
+    # the containers down to the typed depth are built by the routine and must be fresh
+    cases = [
+        ("list", list, lambda: [1, [2], {"k": [3]}], 1), ("list-empty", list, lambda: [], 1), ("dict", dict, lambda: {"a": [1], "b": {"c": [2]}}, 1),
+        ("dict[str,list]", dict[str, list], lambda: {"k": [1, [2]]}, 2), ("list[list]", list[list], lambda: [[1], [2, [3]]], 2), ("list[dict]", list[dict], lambda: [{"a": [1]}], 2),
+        ("tuple", tuple, lambda: ([1], {"a": [2]}), 1), ("set", set, lambda: {1, 2}, 1), ("Bag", Bag, lambda: Bag([1, [2]], {"k": [3]}), 2),
+        ("typing.List", typing.List, lambda: [1, [2]], 1), ("typing.Dict", typing.Dict, lambda: {"a": [1]}, 1), ("Optional[list]", typing.Optional[list], lambda: [[1]], 1),
+        ("Sequence", collections.abc.Sequence, lambda: [1, [2]], 1), ("Mapping", collections.abc.Mapping, lambda: {"a": [1]}, 1),
+    ]
+
+    def upto(x, d, acc=None):
+        acc = {} if acc is None else acc
+        if d <= 0:
+            return acc
+        if isinstance(x, (list, dict, set)):
+            acc[id(x)] = x
+        kids = list(x.values()) if isinstance(x, dict) else list(x) if isinstance(x, (list, tuple, set)) else [getattr(x, f.name) for f in dataclasses.fields(x)] if dataclasses.is_dataclass(x) else []
+        for k in kids:
+            upto(k, d - 1, acc)
+        return acc
+
+    for name, T_, mk, depth in cases:
+        cold.clear_all()
+        res.programs += 1
+        v = mk()
+        before = chash(v)
+        o1 = call(typelib.marshal, v, t=T_)
+        o2 = call(typelib.marshal, v, t=T_)
+        res.evals += 2
+        res.outcomes.add(h64("bare", name, "ok" if o1.ok else o1.excname))
+        viol = None
+        if not o1.ok:
+            viol = ("no-output", f"raises {o1.exc!r}")
+        else:
+            res.nontrivial.add(h64("bare", name))
+            b = bad_node(o1.val)
+            if b:
+                viol = ("closure", f"non-plain node at {b[0]}: {b[1]}")
+            elif not call(json.dumps, o1.val).ok:
+                viol = ("json", "json.dumps rejects the output")
+            elif not o2.ok or not same(o2.val, o1.val):
+                viol = ("determinism", f"second call gives {short(o2.val if o2.ok else o2.exc, 80)}")
+            elif set(upto(o1.val, depth)) & set(containers(v)):
+                viol = ("fresh-vs-input", "a container the routine builds is a container of the input value")
+            elif set(upto(o1.val, depth)) & set(upto(o2.val, depth)):
+                viol = ("fresh-vs-second-call", "two calls share a container the routine builds")
+            elif chash(v) != before:
+                viol = ("input-mutated", "the input value was modified")
+        if viol:
+            res.violation(f"C06/{viol[0]}/bare-container:{name}", f"marshal({short(v, 80)}, t={name}): {viol[1]}; output {short(o1.val if o1.ok else o1.exc, 100)}", {"set": "bare-containers"})
 
 
 def meta(tier):
@@ -315,11 +381,17 @@ def run_term(setname, i, term, tier, res, only_vi=None):
 
 
 def run_unit(unit, tier, res):
+    if unit[0] == "bare-containers":
+        run_bare(res)
+        return
     s, a, b = unit
     for off, term in enumerate(E.unit_terms(unit)):
         run_term(s, a + off, term, tier, res)
 
 
 def replay(case, tier, res):
+    if case.get("set") == "bare-containers":
+        run_bare(res)
+        return
     term = E.term_set(case["set"])[case["i"]]
     run_term(case["set"], case["i"], term, tier, res, only_vi=case.get("vi"))
